@@ -53,8 +53,7 @@ REQUIRED = [
     'EdbVerif.C17.C17_remote_record_weak', 'EdbVerif.C17.C17_remote_record_counterexample_status2',
     'EdbVerif.C17.C17_remote_used_counterexample_failed_sync',
     'EdbVerif.C17.C17_memo_faithful', 'EdbVerif.C17.C17_memo_counterexample',
-    'EdbVerif.C17.C17_used_counterexample_lost_request',
-    'EdbVerif.C17.C17_remote_used_counterexample_lost_request',
+    'EdbVerif.C17.C17_repaired_lost_request', 'EdbVerif.C17.C17_repaired_remote_lost_request',
 ]
 
 KINDS = {'S': 'bytes', 'G': 'bytes', 'R': 'map', 'C': 'map', 'Y': 'map', 'P': 'state'}
@@ -355,8 +354,8 @@ class Gen:
             return 'rux'
         if x < 0.36 and not tx and self.regime != 'nostatus2':
             return 'cancel'
-        if x < 0.39 and not tx and self.regime == 'wild':
-            return 'req'
+        if x < 0.39 and not tx:
+            return 'req'          # (since 3499a3b: answered with a FailedStateSync, harmless)
         return 'ok'
 
     def next(self):
@@ -756,9 +755,8 @@ def witness_specs():
         ('status2_tx_root', dict(base), [C(1, 8, 20, 28, 'ok', 400), C(0, 12, 20, 28, 'unp', 404),
                                          T(0, 8, ['ret', 400], 'ok', 408)],
          {'unserializable-result-stale-belief', 'unserializable-result-wrong-root-schema-in-tx'}),
-        # --- a request the worker cannot unpickle is acknowledged (Props: …_counterexample_lost_request)
-        ('lost_request', dict(base), [C(0, 12, 20, 28, 'req', 400), C(0, 12, 20, 28, 'ok', 404)],
-         {'unprocessed-request-belief-ahead', 'unprocessed-request-wrong-state-used'}),
+        # --- repaired by 3499a3b (Props: C17_repaired_lost_request): a request the worker cannot unpickle
+        ('lost_request', dict(base), [C(0, 12, 20, 28, 'req', 400), C(0, 12, 20, 28, 'ok', 404)], set()),
         # --- the caller is cancelled in flight / the reply cannot be unpickled: like status 2
         ('lost_reply_cancel', dict(base), [C(0, 12, 20, 28, 'cancel', 400), C(0, 8, 20, 28, 'ok', 404)],
          {'lost-reply-stale-belief', 'lost-reply-wrong-state-used'}),
@@ -1049,13 +1047,6 @@ def run(ctx: core.Ctx):
             execute_mt(spec, steps, 'mt-exhaustive')
             n_mx += 1
         # 5. the in-process MultiTenantPool (oracle only, no model)
-        lspec, lsteps, lexpect = c17mt.local_witness()
-        lout = loop.run_until_complete(c17mt.run_local_history(loop, lspec, lsteps, this))
-        results_lmt.append((lspec, lout, 'lmt-witness'))
-        if not lexpect <= {k for k, _, _ in lout.fails}:
-            ctx.fail('witness-not-reproduced:lmt-eviction', 'the MultiTenantPool eviction history does not '
-                     'fail on the real code any more', {'expected': sorted(lexpect),
-                                                        'got': sorted(k for k, _, _ in lout.fails)}, no_input=True)
         # 7. concurrent requests of one client on the remote path (scripted scenario)
         sfails, sdetail = loop.run_until_complete(c17mt.sync_lock_scenario(loop, this))
         scenario_runs.append((sfails, sdetail))
@@ -1066,14 +1057,12 @@ def run(ctx: core.Ctx):
                      'fail on the real code any more', {'expected': sorted(sexpect),
                                                         'got': sorted(k for k, _, _ in sfails),
                                                         'detail': sdetail}, no_input=True)
-        dspec, dsteps, dexpect = c17mt.local_witness_drop()
-        dout = loop.run_until_complete(c17mt.run_local_history(loop, dspec, dsteps, this))
-        results_lmt.append((dspec, dout, 'lmt-witness'))
-        if not dexpect <= {k for k, _, _ in dout.fails} or dout.stats.get('L:syncFail', 0) != 2:
-            ctx.fail('witness-not-reproduced:lmt-drop-tenant', 'drop_tenant(X) followed by requests of X does '
-                     'not fail on the real code any more', {'expected': sorted(dexpect),
-                                                            'got': sorted(k for k, _, _ in dout.fails),
-                                                            'stats': dout.stats}, no_input=True)
+        # (repaired by a325b39: both MultiTenantPool histories are regression witnesses now; a failure
+        #  shows up under its own key)
+        for wit in (c17mt.local_witness, c17mt.local_witness_drop):
+            lspec, lsteps, _lexpect = wit()
+            results_lmt.append((lspec, loop.run_until_complete(
+                c17mt.run_local_history(loop, lspec, lsteps, this)), 'lmt-witness'))
         for i in range(ctx.budget(300, 3000)):
             rng = ctx.rng
             regime = ('clean', 'noreturn', 'wild')[i % 3]
